@@ -47,10 +47,24 @@ def build_all(items):
             it['pb'] = lv.build_parser(os.path.join(it['dir'], 'out'), r)
         except rust2cmd.TranslateError as e:
             it['terror'] = str(e)
+            # the tie is broken for this grammar; keep an implementation-only build so that the direct oracles can
+            # still look for a failing input
+            try:
+                it['pb_impl'] = lv.build_parser(os.path.join(it['dir'], 'out'), r, partial=True)
+            except Exception:  # noqa
+                pass
         except Exception as e:  # noqa
             it['error'] = repr(e)
     with ThreadPoolExecutor(max_workers=16) as ex:
         list(ex.map(one, items))
+
+
+def run_impl_only(it, cases):
+    """cases on the compiled parser alone (no model side): list of (case, impl)"""
+    pb = it['pb_impl']
+    T = pb.tok_ids
+    lines = [lv.case_line(pb, e, [T[x] for x in toks], bits) for e, toks, bits in cases]
+    return list(zip(cases, lv.run_impl(pb, lines)))
 
 
 def run_cases(it, cases):
